@@ -120,6 +120,8 @@ def catalogue():
     et("EtI8", [U("A"), U("B"), U("C")], repr_="i8", note="")
     et("EtNested", [T("A", "EqU8"), T("B", "SqPackedC")], note="nested derived types")
     et("EtOpt", [T("A", "Option<u8>"), U("B")], repr_="u8", note="")
+    eq("EqExplicitExpr", [U("A", "1 << 1"), U("B", "1 << 2"), U("C")], repr_="u8", note="explicit discriminants given as expressions (not integer literals)")
+    et("EtExplicitNeg", [U("A", "-1"), U("B", "1")], repr_="i8", note="negative explicit discriminant")
     et("EtExplicit16", [U("A", 1), U("B", 2), U("C", 300)], repr_="u16", note="explicit discriminants u16")
     et("EtExplicitDense", [U("A", 0), U("B", 1)], repr_="u8", note="explicit discriminants equal to indices (harmless)")
     et("EtVec", [T("A", "Vec<u8>"), T("B", "u8")], note="")
@@ -128,6 +130,8 @@ def catalogue():
     # structs that embed enums
     D.append(Struct("SqWithEnum", ["EqU8", "u8"], repr_="C", tier="q", note="packed struct holding repr(u8) enum"))
     D.append(Struct("SqWithExplicit", ["EqExplicit", "u8"], repr_="C", tier="q", note="packed struct holding explicit-discriminant enum"))
+    D.append(Struct("SqWithExplicitExpr", ["EqExplicitExpr", "u8"], repr_="C", tier="q", note="packed struct holding an enum whose discriminants are expressions"))
+    D.append(Struct("StWithExplicitNeg", ["u8", "EtExplicitNeg"], repr_="C", tier="t", note=""))
     D.append(Struct("StWithData", ["EqDataU32", "u32"], repr_="C", tier="t", note=""))
     return D, E
 
@@ -169,7 +173,7 @@ def emit_enum(e, out):
     if e.repr: attrs += "#[repr(%s)]\n" % e.repr
     vs = []
     for (n, k, f, d) in e.variants:
-        if k == "unit": vs.append(n + (" = %d" % d if d is not None else ""))
+        if k == "unit": vs.append(n + (" = %s" % d if d is not None else ""))
         elif k == "tuple": vs.append("%s(%s)" % (n, ", ".join(f)))
         else: vs.append("%s { %s }" % (n, ", ".join("g%d: %s" % (i, t) for i, t in enumerate(f))))
     for i in range(e.many):
@@ -181,7 +185,7 @@ def emit_enum(e, out):
     anyarms, encarms, samearms, validarms, wirearms = [], [], [], [], []
     discr, cur = [], 0
     for (n, k, f, d) in e.variants:
-        if d is not None: cur = d
+        if d is not None: cur = eval(str(d))
         discr.append(cur); cur += 1
     for i in range(e.many):
         discr.append(cur); cur += 1
